@@ -182,6 +182,56 @@ def cap_stable(progs):
     return rr
 
 
+# ------------------------------------------------------------------------------ EXACT-WHO
+GROWING_OPS = {'push_back', 'emplace_back', 'insert', 'emplace', 'append', 'resize'}
+
+
+def exact_who(progs):
+    """Who may ask for an exact (non geometric) capacity: a call that passes anything but `false` to a parameter named `exact`
+    is an exact request; no element-adding operation may reach one (reserve / shrink_to_fit / assignments / constructors may)."""
+    rr = RuleResult('EXACT-WHO', 'no element-adding operation (push_back, emplace_back, insert, emplace, append, resize) reaches a capacity request '
+                                 'made with exact = true (grow(n, true), reserve): growth through them is always the geometric one')
+    exact_sites = 0
+    for prog in progs:
+        exactish = {}                     # function id -> (call node, callee name) of the exact request it contains
+        for f in prog.amc_functions():
+            body = f.get('body')
+            if body is None:
+                continue
+            own_exact = [i for i, n in enumerate(f.get('pparams') or []) if n == 'exact']
+            for c in A.calls(body):
+                tgt = prog.fns.get(c.get('fn')) if c.get('fn') is not None else None
+                pn = (tgt or {}).get('pparams') or []
+                if 'exact' not in pn:
+                    continue
+                i = pn.index('exact')
+                args = c.get('args', [])
+                a = A.strip(args[i]) if i < len(args) else None
+                if a is None or (a.get('k') == 'lit' and a.get('v') is False):
+                    continue
+                if a.get('k') == 'ref' and a.get('dk') == 'param' and a.get('idx') in own_exact:
+                    continue               # forwards its own `exact` parameter
+                exactish[f['id']] = (prog.site(f, c), tgt['name'])
+                exact_sites += 1
+        for f in prog.amc_functions():
+            if short(f['name']) not in GROWING_OPS or f.get('access') != 'public':
+                continue
+            if not (f['name'].startswith(VEC_NS) or f['name'].startswith('amc::Vector::')):
+                continue
+            reach = prog.reachable(f['id'])
+            hit = next((fid for fid in reach if fid in exactish), None)
+            rr.instance('%s|%s' % (f['key'], rel(f['loc'])), {'function': f['pname'][:150], 'unit': prog.uname, 'functions_reachable': len(reach),
+                                                              'verdict': 'no exact capacity request reachable' if hit is None else 'FAILS'})
+            if hit is not None:
+                c, tname = exactish[hit]
+                path = prog.path(f['id'], lambda x: x['id'] == hit)
+                rr.add(Finding('EXACT-WHO', '%s|%s' % (f['key'], prog.fns[hit]['name']), c,
+                               'an exact capacity request (%s with exact = true) is reachable from %s: %s  - growing through this operation is not '
+                               'geometric (one reallocation per call)' % (short(tname), short(f['name']), CG.fmt_path(path or [f, prog.fns[hit]])),
+                               where=f['pname'], unit=prog.uname))
+    rr.exact_sites = exact_sites
+    return rr
+
 # ------------------------------------------------------------------------------ THROW-TYPE
 THROW_ROLES = {
     'amc::vec::ExceptionGrowingPolicy::Check': 'std::out_of_range',
